@@ -23,6 +23,7 @@ fn pattern(kind: &str) -> String {
         "plain" => "{d}".to_string(),
         "default" => format!("{{d({})}}", FMT),
         "local" => format!("{{date({})(local)}}", FMT),
+        "pid" => "{P}|{pid}".to_string(),
         _ => format!("{{d({})(utc)}}", FMT),
     }
 }
@@ -69,8 +70,56 @@ fn normalise(kind: &str, got: &str) -> String {
 /// every encode runs on a thread of its own.
 fn check_case(ci: usize, case: &Value, same_thread: bool) -> Option<Value> {
     let mut encs: HashMap<String, Box<dyn Encode>> = HashMap::new();
+    let mut in_child: Option<i32> = None; // write end of the pipe to the process that forked us
+    let finish = |in_child: Option<i32>, r: Option<Value>| -> Option<Value> {
+        if let Some(fd) = in_child {
+            // a forked child reports through the pipe and ends here, without running the parent's exit paths
+            let text = serde_json::to_string(&r).unwrap();
+            unsafe {
+                libc::write(fd, text.as_ptr() as *const libc::c_void, text.len());
+                libc::_exit(0);
+            }
+        }
+        r
+    };
     for (i, op) in case["ops"].as_array().unwrap().iter().enumerate() {
         match op["op"].as_str().unwrap() {
+            "fork" => {
+                // the history continues in the child (DateZone.tla, Fork); the parent waits for its verdict
+                let mut fds = [0i32; 2];
+                unsafe {
+                    if libc::pipe(fds.as_mut_ptr()) != 0 {
+                        return finish(in_child, Some(json!({"step": i, "what": "harness: pipe failed"})));
+                    }
+                    let pid = libc::fork();
+                    if pid < 0 {
+                        return finish(in_child, Some(json!({"step": i, "what": "harness: fork failed"})));
+                    }
+                    if pid == 0 {
+                        libc::close(fds[0]);
+                        if let Some(up) = in_child {
+                            libc::close(up);
+                        }
+                        in_child = Some(fds[1]);
+                        continue;
+                    }
+                    libc::close(fds[1]);
+                    let mut buf = vec![];
+                    let mut chunk = [0u8; 4096];
+                    loop {
+                        let n = libc::read(fds[0], chunk.as_mut_ptr() as *mut libc::c_void, chunk.len());
+                        if n <= 0 {
+                            break;
+                        }
+                        buf.extend_from_slice(&chunk[..n as usize]);
+                    }
+                    libc::close(fds[0]);
+                    let mut status = 0;
+                    libc::waitpid(pid, &mut status, 0);
+                    let r: Option<Value> = serde_json::from_slice(&buf).unwrap_or_else(|_| Some(json!({"step": i, "what": "forked child died without a verdict", "status": status})));
+                    return finish(in_child, r);
+                }
+            }
             "zone" => {
                 std::env::set_var("TZ", op["z"].as_str().unwrap());
                 if same_thread && i > 0 {
@@ -83,8 +132,8 @@ fn check_case(ci: usize, case: &Value, same_thread: bool) -> Option<Value> {
                     Ok(Ok(e)) => {
                         encs.insert(k.to_string(), e);
                     }
-                    Ok(Err(e)) => return Some(json!({"step": i, "what": "encoder build failed", "error": e})),
-                    Err(p) => return Some(json!({"step": i, "what": "encoder build panicked", "error": p})),
+                    Ok(Err(e)) => return finish(in_child, Some(json!({"step": i, "what": "encoder build failed", "error": e}))),
+                    Err(p) => return finish(in_child, Some(json!({"step": i, "what": "encoder build panicked", "error": p}))),
                 }
             }
             _ => {
@@ -99,20 +148,28 @@ fn check_case(ci: usize, case: &Value, same_thread: bool) -> Option<Value> {
                 };
                 let got = match rendered {
                     Ok(Ok(s)) => s,
-                    Ok(Err(e)) => return Some(json!({"step": i, "what": "encode failed", "error": e})),
-                    Err(p) => return Some(json!({"step": i, "what": "encode panicked", "error": p})),
+                    Ok(Err(e)) => return finish(in_child, Some(json!({"step": i, "what": "encode failed", "error": e}))),
+                    Err(p) => return finish(in_child, Some(json!({"step": i, "what": "encode panicked", "error": p}))),
                 };
                 let after = Utc::now();
+                if k == "pid" {
+                    let me = std::process::id();
+                    if got != format!("{}|{}", me, me) {
+                        return finish(in_child, Some(json!({"step": i, "what": "process id of another process", "pattern": pattern(k), "forks_before": op["gen"],
+                                           "expected": format!("{}|{}", me, me), "actual": got})));
+                    }
+                    continue;
+                }
                 let g = normalise(k, &got);
                 let (a, b) = (expect(k, z, before), expect(k, z, after));
                 if g != a && g != b {
-                    return Some(json!({"step": i, "what": "date rendered in another zone", "kind": k, "pattern": pattern(k), "zone": z,
-                                       "expected": a, "actual": got}));
+                    return finish(in_child, Some(json!({"step": i, "what": "date rendered in another zone", "kind": k, "pattern": pattern(k), "zone": z,
+                                       "expected": a, "actual": got})));
                 }
             }
         }
     }
-    None
+    finish(in_child, None)
 }
 
 /// `datezone <cases.ndjson> <out.ndjson>`
